@@ -14,7 +14,7 @@ if [ -n "$PATCH" ]; then (cd $SB/stage && patch -p1 -s < "$PATCH") || { echo "pa
 # checksum sync without times: files whose content changed (patched now, or un-patched again)
 # get a fresh mtime, so cargo notices both directions
 rsync -rc --delete --exclude target $SB/stage/ $SB/repo/
-rsync -a --delete --exclude target --exclude work --exclude replays --exclude evidence --exclude seeded --exclude .git /verif/ $SB/verif/
+rsync -a --delete --exclude target --exclude work --exclude replays --exclude evidence --exclude seeded --exclude .git ${VERIF_SRC:-/verif}/ $SB/verif/
 sed -i "s#\"/repo/#\"$SB/repo/#" $SB/verif/harness/Cargo.toml $SB/verif/harness/c19/*/Cargo.toml $SB/verif/harness/c17/*/Cargo.toml
 # keep file mtimes of unchanged repo files stable so cargo does not rebuild everything
 VERIF_ROOT=$SB/verif exec $SB/verif/check "$@"
